@@ -20,7 +20,7 @@ RULE = (
     "representation, block size, spread, layout hash)."
 )
 ASSUMPTIONS = ["reference self-tests passed", "a returned (d,1) vector is compared as a ray (norm and global phase ignored)",
-               "CompositeEnvelope.trace_out is asked only for subsystems stored in its product spaces"]
+               "CompositeEnvelope.trace_out is asked only when at least one requested subsystem is stored in one of its product spaces"]
 
 
 def strategy(tier):
